@@ -560,6 +560,30 @@ func TestGenC02(t *testing.T) {
 			return c, what
 		}, rr)
 	}
+	// (3) long streams: a record replayed exactly one or two key rotations later (a key is used for 500 records:
+	// 1000 nonces, two per record), and a record of the other direction with the same nonce
+	for ci, c := range [][2]int{{0, 500}, {3, 503}, {0, 1000}, {499, 999}, {1, 501}, {250, 500}} {
+		i, j := c[0], c[1]
+		rr := r.sub(900000 + ci)
+		var recs [][]byte
+		for k := 0; k < j+2; k++ {
+			recs = append(recs, rr.bytes([]int{1, 0, 2}[k%3]))
+		}
+		reflect := ci == 4
+		scenario(ci%2 == 1, ci%2, recs, func(s, other []witem, _ *rng) ([]witem, string) {
+			bs := recordBounds(recs)
+			ins := append([]witem{}, s[bs[i][0]:bs[i][1]]...)
+			what := "replay-across-rotation"
+			if reflect {
+				ins = append([]witem{}, other...)
+				for x := range ins {
+					ins[x].op += 1000000
+				}
+				what = "reflect-after-rotation"
+			}
+			return append(append(append([]witem{}, s[:bs[j][0]]...), ins...), s[bs[j][1]:]...), what
+		}, rr)
+	}
 }
 
 func keyECDH(k *btcec.PrivateKey) keychain.SingleKeyECDH { return &keychain.PrivKeyECDH{PrivKey: k} }
